@@ -30,7 +30,7 @@ GOOD_BEFORE = ['>>> a = 1', '>>> print(a)', '1']
 SKIPHDR = ['Ignore:', 'Script:', 'DisableDoctest:', 'Benchmark:', 'Example:', 'Doctest:', 'Notes:']
 
 
-class Timeout(Exception):
+class Timeout(BaseException):
     pass
 
 
@@ -103,7 +103,20 @@ def impl_examples(docstr, style):
 
 
 def oracle_inputs(docstr):
-    """answers of the google splitter and of DoctestParser.parse, as data for the Collect model"""
+    """answers of the google splitter and of DoctestParser.parse, as data for the Collect model
+    (under an alarm: a parse that hangs must not hang the check; the hang itself is reported by the caller)"""
+    old = signal.signal(signal.SIGALRM, _alarm)
+    signal.alarm(10)
+    try:
+        return _oracle_inputs(docstr)
+    except Timeout:
+        return Sym('splitter-raised'), None
+    finally:
+        signal.alarm(0)
+        signal.signal(signal.SIGALRM, old)
+
+
+def _oracle_inputs(docstr):
     from xdoctest.docstr import docscrape_google
     from xdoctest import exceptions, parser
     def parse_class(text):
@@ -113,6 +126,8 @@ def oracle_inputs(docstr):
                 return None, parser.DoctestParser().parse(text)
         except exceptions.DoctestParseError:
             return Sym('parse'), None
+        except Timeout:
+            raise
         except Exception:
             return Sym('other'), None
     try:
@@ -125,6 +140,8 @@ def oracle_inputs(docstr):
         split = common.some(split)
     except exceptions.MalformedDocstr:
         split = None
+    except Timeout:
+        raise
     except Exception:
         split = Sym('splitter-raised')
     cls, parts = parse_class(docstr)
